@@ -157,6 +157,15 @@ def r1(ctx, R):
         e_name, d_name = [x.id for x in st.targets[0].elts]
         d_added = any(isinstance(s2, ast.AugAssign) and isinstance(s2.target, ast.Name) and s2.target.id in fres and isinstance(s2.value, ast.Name) and s2.value.id == d_name for s2 in ctx.m.walk_own(f.node)) or any(isinstance(x, ast.Call) and isinstance(x.func, ast.Attribute) and x.func.attr == "extend" and any(isinstance(a, ast.Name) and a.id == d_name for a in x.args) for x in calls_in(f.node))
         e_built = any(isinstance(lp, ast.For) and isinstance(lp.iter, ast.Name) and lp.iter.id == e_name and any(isinstance(x.func, ast.Attribute) and x.func.attr == "append" and any(isinstance(y, ast.Call) and isinstance(y.func, ast.Attribute) and y.func.attr == "build" for a in x.args for y in ast.walk(a)) for x in calls_in(lp)) for lp in ctx.m.walk_own(f.node))
+        if not e_built:
+            # comprehension form: result.extend([e.build(..) for e in errors]) / result += [...]
+            for comp in (x for x in ctx.m.walk_own(f.node) if isinstance(x, (ast.ListComp, ast.GeneratorExp))):
+                if len(comp.generators) == 1 and not comp.generators[0].ifs and isinstance(comp.generators[0].iter, ast.Name) and comp.generators[0].iter.id == e_name and any(isinstance(y, ast.Call) and isinstance(y.func, ast.Attribute) and y.func.attr == "build" for y in ast.walk(comp.elt)):
+                    par = ctx.m.parent.get(comp)
+                    stc = ctx.m.enclosing_stmt(comp)
+                    into = (isinstance(par, ast.Call) and isinstance(par.func, ast.Attribute) and par.func.attr == "extend" and isinstance(par.func.value, ast.Name) and par.func.value.id in fres) or (isinstance(stc, ast.AugAssign) and isinstance(stc.target, ast.Name) and stc.target.id in fres and stc.value is comp) or (isinstance(stc, ast.Return))
+                    if into:
+                        e_built = True
         if d_added:
             R.ok("C07.R1", f.short, "parse-time diagnostics added", loc(f, st))
         else:
